@@ -664,3 +664,25 @@ def struct_session(g, tier):
             recs = [{n: g.rbytes(w) for n, w in rl} for _ in range(c)]
             ops.append({"op": "struct", "v": ver, "hdr": hdr, "recs": recs})
     return ops
+
+
+def many_templates_session(g, n=1100):
+    """more template ids than any plausible cache bound, then data for the oldest and newest ids; a twin parser is
+    fed the same history (nothing may be evicted, C06; two parsers must agree, C16)"""
+    r = g.r
+    ops = ops_reset(("A", "B"))
+    recs = []
+    for i in range(n):
+        recs += b16(256 + i) + b16(1) + b16(1) + b16(4)
+    v9t = g.v9_hdr(1) + g.set_(0, recs)
+    ixt = g.ix_msg([g.set_(2, b16(256 + i) + b16(1) + b16(1) + b16(4)) for i in range(n)])
+    ids = [256, 257, 256 + n // 2, 256 + n - 2, 256 + n - 1] + [256 + r.randrange(n) for _ in range(4)]
+    bufs = [v9t, ixt]
+    for t in ids:
+        bufs.append(g.v9_hdr(1) + g.set_(t, g.rbytes(8)))
+        bufs.append(g.ix_msg([g.set_(t, g.rbytes(8))]))
+    for p in ("A", "B"):
+        for b in bufs:
+            ops.append(call(p, b))
+    ops.append({"op": "round", "kind": "twins", "a": "A", "b": "B", "c": ""})
+    return ops
